@@ -309,6 +309,10 @@ func (dec *xmlDecoder) decodeXML(root *xmlNode) error {
 				continue
 			}
 			log.Debug("end element %v", elem.label)
+			if elem.parent != nil && se.Name.Local != elem.label {
+				// the raw token reader does not pair the tags itself
+				return fmt.Errorf("invalid XML: element <%v> closed by </%v>", elem.label, se.Name.Local)
+			}
 			elem.state = "finished"
 			// And add it to its parent list
 			if elem.parent != nil {
@@ -341,6 +345,10 @@ func (dec *xmlDecoder) decodeXML(root *xmlNode) error {
 			}
 		}
 		started = true
+	}
+
+	if elem != nil && elem.parent != nil {
+		return fmt.Errorf("invalid XML: element <%v> is not closed", elem.label)
 	}
 
 	return nil
